@@ -133,9 +133,27 @@ func (c *ctx) yearsFor(boundary []int, nQuick int, lo, hi int) []int {
 			set[y] = true
 		}
 	} else {
+		// stratified: a quarter of the seeded years from each era of the library's algorithms (tabulated mean
+		// motions before 619, tabulated corrections to 1644, the ephemeris series from 1645, the far future)
 		r := rand.New(rand.NewSource(c.seed*7919 + 17))
-		for len(set) < nQuick+len(boundary) && len(set) < hi-lo+1 {
-			set[lo+r.Intn(hi-lo+1)] = true
+		cuts := []int{lo, 619, 1645, 3001, hi + 1}
+		strata := [][2]int{}
+		for i := 0; i+1 < len(cuts); i++ {
+			a, b := cuts[i], cuts[i+1]-1
+			if a < lo {
+				a = lo
+			}
+			if b > hi {
+				b = hi
+			}
+			if a <= b {
+				strata = append(strata, [2]int{a, b})
+			}
+		}
+		want := nQuick + len(set)
+		for k := 0; len(set) < want && len(set) < hi-lo+1 && k < 100*want; k++ {
+			st := strata[k%len(strata)]
+			set[st[0]+r.Intn(st[1]-st[0]+1)] = true
 		}
 	}
 	ys := make([]int, 0, len(set))
